@@ -28,7 +28,6 @@ for unambiguous inputs the subclass is checked as well.
 import errno
 import hashlib
 import os
-import struct
 
 from hypothesis import strategies as st
 
@@ -62,7 +61,6 @@ ASSUMPTIONS = [
 
 EXCLUDE_CLASSES = set(filter(None, os.environ.get("VERIF_EXCLUDE_C13",
                                                   "").split(",")))
-
 
 
 def _load_dev_known():
@@ -317,12 +315,17 @@ def learn(driver, kind):
     return _learned[key]
 
 
-def phase_of(driver, sc, code):
+def phase_of(driver, sc, code, at=None):
+    """rf: the RF exchange command; prep: register / RF configuration
+    commands before it; ciu: register traffic that replaces the RF command
+    on the direct-CIU paths"""
     if driver == "udp":
         return "rf"
     if code in RF_CODES[hostfamily(driver)]:
         return "rf"
-    return "ciu" if sc.ciu else "prep"
+    if sc.ciu and not (sc.side == "I" and at is not None and at < 3):
+        return "ciu"
+    return "prep"
 
 
 # ------------------------------------------------------------------ oracle
@@ -520,7 +523,7 @@ def run_fault(case, ctx):
     else:
         at = case["at"] % len(seq)
         code = seq[at][0]
-        phase = phase_of(drv, sc, code)
+        phase = phase_of(drv, sc, code, at)
         link.script = {at: fault}
         cls = fault_class(drv, phase, fault, seq[at][1])
     ctx.set_class(cls)
@@ -564,9 +567,6 @@ def run_fault(case, ctx):
     if want is not ANY and tag not in want:
         raise Violation("wrong-error-mapping", "%s -> %s (%s), expected %s"
                         % (what, tag, val, "/".join(sorted(want))))
-    if tag == "data" and want == {"data"} and fk in ("status", "fifo"):
-        # status 00 without data / complete FIFO: bytes-like is all we ask
-        pass
     ctx.note({"outcome": tag})
 
 
@@ -618,7 +618,7 @@ def enum_status(tier, seed):
         seq, _ = learn(d, k)
         c = {"driver": d, "kind": k}
         for at, (code, rsp) in enumerate(seq):
-            if phase_of(d, sc, code) != "rf":
+            if phase_of(d, sc, code, at) != "rf":
                 continue
             if d == "rcs380":
                 words = [0] + [1 << b for b in RCS380_BITS]
@@ -865,16 +865,16 @@ def run_mixed(case, ctx):
             f = ["timeout"]
         if f[0] == "status" and drv != "rcs380":
             f[1] &= 0xFF
-        if f[0] == "status" and phase_of(drv, sc, seq[at][0]) != "rf" \
+        if f[0] == "status" and phase_of(drv, sc, seq[at][0], at) != "rf" \
                 and (f[1] == 0 or not has_status(drv, seq[at][0])):
             f = ["payload", 1]      # no status byte / status without data
         if at not in script:
             script[at] = f
-            classes.append(fault_class(drv, phase_of(drv, sc, seq[at][0]), f,
-                                       seq[at][1]))
+            classes.append(fault_class(drv, phase_of(drv, sc, seq[at][0], at),
+                                       f, seq[at][1]))
     first = min(script)
-    cls = fault_class(drv, phase_of(drv, sc, seq[first][0]), script[first],
-                      seq[first][1])
+    cls = fault_class(drv, phase_of(drv, sc, seq[first][0], first),
+                      script[first], seq[first][1])
     ctx.set_class(cls)
     ctx.label("driver:" + drv, "faults:%d" % len(script))
     if set(classes) & EXCLUDE_CLASSES:
@@ -895,10 +895,10 @@ def run_mixed(case, ctx):
         if applied:
             last = max(applied)
             ctx.set_class(fault_class(
-                drv, phase_of(drv, sc, seq[last][0]), script[last],
+                drv, phase_of(drv, sc, seq[last][0], last), script[last],
                 seq[last][1]))
     ctx.label("outcome:" + tag)
-    if len(script) > 1 or phase_of(drv, sc, seq[first][0]) != "rf":
+    if len(script) > 1 or phase_of(drv, sc, seq[first][0], first) != "rf":
         ctx.nontrivial()
 
 
